@@ -55,7 +55,7 @@ TEXT = {
  "C16": ("Real TensorChain: sequential workspace programs, tamper matrix over every stored block and field, concurrent commits (stress and parked at the commit hook), replica replay on two stores; verify() must accept built chains and reject tampered ones, commits must be atomic.",
          "Held on the programs/interleavings explored.",
          "runtime monitoring: tamper-injection oracle + atomicity/conservation checks under forced interleavings"),
- "C17": ("Real LWWMembershipState / GossipMembershipManager on every multiset of <=3 (quick) / <=4 (thorough) updates over a small universe in every permutation and batching, plus random larger multisets and random programs of merges and local events, with an online monitor for view equality and monotonicity.",
+ "C17": ("Real LWWMembershipState / GossipMembershipManager on every multiset of <=4 (quick) / <=5 (thorough) updates over a small universe in every permutation and batching, plus random larger multisets and random programs of merges and local events, with an online monitor for view equality and monotonicity.",
          "Universe bounded (2 members, incarnation 0-2, timestamp 1-2 for the exhaustive part).",
          "runtime monitoring: online oracle over enumerated delivery orders and randomized programs"),
  "C18": ("Real GraphEngine path queries and algorithms against independent reference implementations (BFS, Bellman-Ford, DFS enumeration, Tarjan, Kruskal, peeling, triangle enumeration) on random multigraphs with self-loops, parallel edges, mixed direction, filters.",
